@@ -80,6 +80,7 @@ type Sent struct {
 	Meta    map[string]string
 	Erc20   *Erc20Call
 	PcCall  *PcCall
+	Wit     *Witness
 }
 
 // World is the interpreter state.
